@@ -285,10 +285,9 @@ FASTOR_INLINE BinaryMulOp<TLhs, TRhs, DIM0> operator/(const AbstractTensor<TLhs,
 template<typename TLhs, typename TRhs, size_t DIM0,
          typename std::enable_if<is_primitive_v_<TLhs> && !std::is_integral<TRhs>::value &&
                                  !is_primitive_v_<TRhs>,bool>::type = 0 >
-FASTOR_INLINE BinaryMulOp<TLhs, TRhs, DIM0> operator/(TLhs bb, const AbstractTensor<TRhs,DIM0> &_rhs) {
-  return BinaryMulOp<TLhs, TRhs, DIM0>(
-    static_cast<typename scalar_type_finder<TLhs>::type>(1)/static_cast<typename scalar_type_finder<TLhs>::type>(bb),
-    _rhs.self());
+FASTOR_INLINE BinaryDivOp<TLhs, TRhs, DIM0> operator/(TLhs bb, const AbstractTensor<TRhs,DIM0> &_rhs) {
+  // number/expression cannot be turned in to a multiplication with a precomputed reciprocal
+  return BinaryDivOp<TLhs, TRhs, DIM0>(bb,_rhs.self());
 }
 // Special case for integral types
 template<typename TLhs, typename TRhs, size_t DIM0,
